@@ -398,7 +398,9 @@ def order_corpus(quick: bool):
     base += ['def f(x: int) -> int:\n\tdef g() -> None:\n\t\tpass\n\treturn x', 'x = 1', 'x: int = 1', 'x = 1.5', 'x, y = a', 'a.b = 1', 'for i in a:\n\tpass',
              'try:\n\tpass\nexcept E as e:\n\tpass', 'with a as f:\n\tpass', 'from m import x as y', 'class E(Enum):\n\tA = 1', 'x = [i for i in a]', 'f = lambda x: x',
              'def f() -> None:\n\t"""doc"""\n\tpass', 'x: list[int] = []', 'x: dict[str, int] = {}', 'x: Callable[[int], None] = f', 'cls.a = self.b', 'super().__init__()',
-             'class C:\n\tx: ClassVar[int] = 1', "T = TypeVar('T')", 'A: TypeAlias = int']
+             'class C:\n\tx: ClassVar[int] = 1', "T = TypeVar('T')", 'A: TypeAlias = int',
+             # entries no node class accepts (the answer must be the same UnresolvedNode on every query)
+             'x = 0o17', 'x = 1j', 'y = 0b101 + 1']
     wide = ['\n'.join(f'x{i} = {i}' for i in range(12)), 'f(' + ', '.join(f'a{i}' for i in range(12)) + ')',
             'def f(' + ', '.join(f'p{i}: int' for i in range(12)) + ') -> None:\n\tpass', '[' + ', '.join(str(i) for i in range(13)) + ']']
     return (base if not quick else base[::2] + base[1:8:2]) + wide
